@@ -3,6 +3,7 @@ package static
 import (
 	"fmt"
 	"net/http"
+	"net/url"
 	"path"
 	"path/filepath"
 	"strings"
@@ -434,7 +435,15 @@ func (Engine) Run(t *tape.Tape, o eng.Opts) *eng.Result {
 		if staticStatus >= 300 && staticStatus < 400 && staticStatus != 304 {
 			loc := q.W.Sent.Get("Location")
 			want := path.Clean(q.Path) + "/"
-			if loc != want || strings.HasSuffix(q.Path, "/") {
+			// The target is judged as a client would follow it: resolved against the path that was
+			// asked for, on the same host, it must be the slash-terminated form of that path - however
+			// the reference is spelled (absolute path, relative last element, percent-encoded).
+			okLoc := loc == want
+			if u, err := url.Parse(loc); !okLoc && err == nil && loc != "" {
+				r := (&url.URL{Path: q.Path}).ResolveReference(u)
+				okLoc = r.Scheme == "" && r.Host == "" && strings.HasSuffix(r.Path, "/") && path.Clean(r.Path)+"/" == want
+			}
+			if !okLoc || strings.HasSuffix(q.Path, "/") {
 				viol("redirect-location", "redirect to "+quote(loc)+" instead of the slash-terminated form "+quote(want)+" of a slash-less directory path\n  "+desc)
 			}
 			if !anyMutation && under {
